@@ -131,10 +131,20 @@ func VH_C18_WriteFault() {
 	format := choose(3)
 	s := NewSubtitles()
 	s.Metadata = &Metadata{Framerate: 25}
+	// with or without the optional blocks of the document (SSA styles; WebVTT regions and style block)
+	if choose(2) == 1 {
+		s.Metadata.Title = "t"
+		s.Styles["s"] = &Style{ID: "s", InlineStyle: &StyleAttributes{SSAFontName: "Arial", SSABold: vboolp(true), WebVTTStyles: []string{"::cue { color: red }"}}}
+		s.Regions["r"] = &Region{ID: "r", InlineStyle: &StyleAttributes{WebVTTLines: 3}}
+	}
 	n := 1 + choose(2)
 	for i := 0; i < n; i++ {
 		st := nondetInt64(0, 3599) * 1000000000
-		s.Items = append(s.Items, &Item{StartAt: timeDur(st), EndAt: timeDur(st + 1000000000), Lines: []Line{{Items: []LineItem{{Text: "a"}}}}})
+		it := &Item{StartAt: timeDur(st), EndAt: timeDur(st + 1000000000), Lines: []Line{{Items: []LineItem{{Text: "a"}}}}}
+		if len(s.Styles) > 0 {
+			it.Style, it.Region = s.Styles["s"], s.Regions["r"]
+		}
+		s.Items = append(s.Items, it)
 	}
 	var buf bytes.Buffer
 	vassert(vc18Write(format, s, &buf) == nil, "C18 write without fault succeeds")
